@@ -4,71 +4,13 @@ from ..fdai import EnumV, AggV, K, SymV, RefV, Cell, Loc, TOP, load, snapshot
 from . import dispatch as D, contrib as CB, lexer as LX, convert as CV
 
 LEVEL = "other"
-TECHNIQUE = 'FDAI dispatch table of Tokenizer::next over (class of first byte, class of second byte or end, in_header, in_common, after_data) compared with the IEEE 488.2 section 7 dispatch rules (incl. flag updates and bytes consumed); whole-element tables: Tokenizer::next folded, with every tokenizer function analysed in place, on representative complete elements of every kind (mnemonics, character data, decimal numbers with suffixes, strings, expressions, definite/indefinite blocks, non-decimal numbers, the data separator followed by each kind) and compared with a reference lexer written from 488.2 section 7 - token kind, payload bytes and bytes consumed; the 12-character limits and the separator-after-datum rule are named rows of those tables; non-ASCII rejection sites; block-length dataflow; radix table; thorough tier: every text over a small alphabet of the distinguished bytes up to a length bound (about 9200 inputs)'
-LEVEL_TEXT = 'The per-element dispatch of the lexer is a finite function of the byte classes it distinguishes and three flags; it is enumerated completely (about 3700 abstract states) and compared row by row with the section 7 rules the statement names (`:` only inside a non-common header before a letter, `?` only in a header before white space/`;`/end, `,` only right after a data element, NL only as last byte, data only outside the header, ...). Element boundaries, payloads, the length limits and the separator-after-datum rule are decided by folding the lexer on representative elements and comparing with the reference lexer.'
+TECHNIQUE = 'FDAI dispatch table of Tokenizer::next over (class of first byte, class of second byte or end, lexer state) compared with the IEEE 488.2 section 7 dispatch rules (result, bytes consumed, state afterwards); the lexer states are not named by field: they are explored from the constructors of the library along the transitions of the lexer itself, each paired with the section 7 state of its history (product exploration); whole-element tables: Tokenizer::next folded, with every tokenizer function analysed in place, on representative complete elements of every kind (mnemonics, character data, decimal numbers with suffixes, strings, expressions, definite/indefinite blocks, non-decimal numbers, the data separator followed by each kind) and compared with a reference lexer written from 488.2 section 7 - token kind, payload bytes and bytes consumed; the 12-character limits and the separator-after-datum rule are named rows of those tables; non-ASCII rejection sites; block-length dataflow; radix table; thorough tier: every text over a small alphabet of the distinguished bytes up to a length bound (about 9200 inputs)'
+LEVEL_TEXT = 'The per-element dispatch of the lexer is a finite function of the byte classes it distinguishes and its bookkeeping state; it is enumerated completely over every bookkeeping state reachable from the constructors (about 3700 rows) and compared row by row with the section 7 rules the statement names (`:` only inside a non-common header before a letter, `?` only in a header before white space/`;`/end, `,` only right after a data element, NL only as last byte, data only outside the header, ...). Element boundaries, payloads, the length limits and the separator-after-datum rule are decided by folding the lexer on representative elements and comparing with the reference lexer.'
 LEVEL_NOTE = "Not decided: elements beyond the enumerated representatives (uniformity of the readers' per-byte loops); the numeric value of decimal data (C07/C08). Trusted: rustc MIR, FDAI byte-cursor models, lexical-core's integer parsers by contract."
 
 TK = "scpi::parser::tokenizer::Tokenizer::"
-WS = (9, 10, 12, 13, 32)
-
-
-def alpha(b):
-    return b is not None and ((65 <= b <= 90) or (97 <= b <= 122))
-
-
-def digit(b):
-    return b is not None and 48 <= b <= 57
-
-
-def expect(b1, b2, h, c, a):
-    """IEEE 488.2 section 7 dispatch on the first byte: (result, {flag: value}, bytes consumed by next() itself or None)"""
-    ch = chr(b1)
-    keep = {"in_header": h, "in_common": c}
-    if ch == "*":
-        return "reader:read_mnemonic", {"in_header": h, "in_common": True}, None
-    if ch == ":":
-        if b2 is not None and not alpha(b2):
-            return "Err(InvalidSeparator)", keep, 1
-        if (not h) or c:
-            return "Err(InvalidSeparator)", keep, 1
-        return "Ok(HeaderMnemonicSeparator)", keep, 1
-    if ch == "?":
-        if b2 is not None and b2 not in WS and b2 != ord(";"):
-            return "Err(SyntaxError)", keep, 1
-        if not h:
-            return "Err(SyntaxError)", keep, 1
-        return "Ok(HeaderQuerySuffix)", {"in_header": False, "in_common": c}, 1
-    if ch == ";":
-        return "Ok(ProgramMessageUnitSeparator)", {"in_header": True, "in_common": False}, 2 if b2 in WS else 1
-    if ch == "\n":
-        if b2 is None:
-            return "None", keep, 1
-        return "Err(SyntaxError)", keep, 2
-    if ch == ",":
-        if h:
-            return "Err(HeaderSeparatorError)", keep, 1
-        if not a:
-            return "Err(SyntaxError)", keep, 1
-        if b2 in (ord(","), ord(";")):
-            return "Err(SyntaxError)", keep, 1
-        return "Ok(ProgramDataSeparator)", keep, 2 if b2 in WS else 1
-    if b1 in WS:
-        return "Ok(ProgramHeaderSeparator)", {"in_header": False, "in_common": c}, 2 if b2 in WS else 1
-    if alpha(b1):
-        return ("reader:read_mnemonic" if h else "reader:read_character_data"), keep, None
-    if digit(b1) or ch in "+-.":
-        return ("Err(CommandHeaderError)" if h else "reader:read_numeric_data"), keep, 0 if h else None
-    if ch == "#":
-        if h:
-            return "Err(CommandHeaderError)", keep, 1
-        if b2 is None:
-            return "Err(BlockDataError)", keep, 1
-        return ("reader:read_arbitrary_data" if digit(b2) else "reader:read_nondecimal_data"), keep, None
-    if ch in "\"'":
-        return ("Err(CommandHeaderError)" if h else "reader:read_string_data"), keep, 0 if h else None
-    if ch == "(":
-        return "reader:read_expression_data", keep, None
-    return ("Err(SyntaxError)" if b1 < 128 else "Err(InvalidCharacter)"), keep, 1
+WS = LX.WS
+expect = LX.expect   # IEEE 488.2 section 7 dispatch (sa/rules/lexer.py)
 
 
 def run(R, tier):
@@ -77,23 +19,26 @@ def run(R, tier):
     u = P.unit("scpi")
 
     # ---- R04.7 dispatch table -------------------------------------------------------------------------
-    rows, classes, consts, has_after = LX.next_table()
+    # The lexer's bookkeeping is never named here: the table runs over every bookkeeping state the lexer reaches from its
+    # own constructors, each paired with the section 7 state (header? common? datum just read?) of the history that led
+    # to it (sa/rules/lexer.py: tokenizer_states). That the bookkeeping is updated as section 7 says is part of that
+    # exploration: the state a row leaves behind is explored under the section 7 state `expect` gives for it, so a wrong
+    # update shows as a wrong result in the rows of the successor state.
+    rows, classes, consts, pairs = LX.next_table()
     R.count("lexer_rows", len(rows))
+    R.count("lexer_states", len(pairs))
     R.count("byte_classes", len(classes))
     bad = {}
     groups = {}
     for r in rows:
-        groups.setdefault((r.n1, r.b1, r.n2, r.b2, r.in_header, r.in_common, r.after_data), []).append(r)
+        groups.setdefault((r.n1, r.b1, r.n2, r.b2, r.in_header, r.in_common, r.after_data, r.sid), []).append(r)
     for key, rs in groups.items():
-        n1, b1, n2, b2, h, c, a = key
-        exp_res, exp_flags, exp_pos = expect(b1, b2, h, c, a)
+        n1, b1, n2, b2, h, c, a, sid = key
+        exp_res, exp_next, exp_pos = expect(b1, b2, h, c, a)
         for r in rs:
             got = r.result
             ok = got == exp_res
             if ok and exp_res.startswith("reader:"):
-                # flags as they were when the reader was entered, and reader arguments
-                fl = (r.reader_flags or {})
-                ok = fl.get("in_header") == exp_flags["in_header"] and fl.get("in_common") == exp_flags["in_common"]
                 nm, args = r.reader
                 if nm == "read_mnemonic":
                     ok = ok and args[0] == ("K", b1 == ord("*"))
@@ -102,31 +47,35 @@ def run(R, tier):
                 if nm == "read_string_data":
                     ok = ok and args[0] == ("K", b1) and args[1] == ("K", True)
             elif ok:
-                ok = r.final.get("in_header") == exp_flags["in_header"] and r.final.get("in_common") == exp_flags["in_common"]
                 if exp_pos is not None:
                     ok = ok and r.final.get("pos") == exp_pos
-                if has_after and not exp_res.startswith("Err("):
-                    ok = ok and r.final.get("after_data") is False  # (after an error lexing stops; the flag no longer matters)
+                if exp_res.startswith("Ok("):
+                    ok = ok and r.final_state is not None   # (a definite state, explored as the successor)
             if not ok:
-                bad.setdefault((n1, exp_res), []).append("%s second=%s hdr=%d com=%d aft=%d -> %s flags=%s" % (n1, n2, h, c, a, got, r.final if not r.reader else r.reader_flags))
+                bad.setdefault((n1, exp_res), []).append("%s second=%s hdr=%d com=%d aft=%d -> %s pos=%s" % (n1, n2, h, c, a, got, r.final.get("pos")))
     for (n1, exp_res), items in sorted(bad.items()):
         R.violation("R04.7", "dispatch[%s->%s]" % (n1, exp_res), "lexer dispatch differs from IEEE 488.2 section 7 for %d abstract state(s), e.g. %s" % (len(items), items[:2]))
     firsts = sorted({r.n1 for r in rows})
     for n1 in firsts:
         if not any(k[0] == n1 for k in bad):
             R.ok("R04.7", "dispatch[%s]" % n1, "all states with first byte class %s follow the section 7 dispatch" % n1)
-    R.floor("R04.7", "lexer dispatch rows", len(rows), 3000)
-    # after a reader returned, after_data := (result is a data token)
+    R.floor("R04.7", "lexer dispatch rows", len(rows), 2500)
+    labels = {lab for _, lab in pairs}
+    need = {(True, False, False), (True, True, False), (False, False, False), (False, False, True), (False, True, False), (False, True, True)}
+    R.check(need <= labels, "R04.7", "states", "the exploration reaches every section 7 state of a message (%d bookkeeping states)" % len(pairs), "section 7 states never reached from the constructors: %s" % sorted(need - labels))
+    # a data separator needs a datum before it
     LX.check_separator_typestate(R, "R04.3")
     nb = LX.tokenizer_next_body(u)
-    # flags are written only by Tokenizer::next and the constructors
+    # the bookkeeping is written only by Tokenizer::next and the constructors (the readers leave it alone)
+    tk_fields = LX.tokenizer_fields(u)
     writers = {}
     for b in u.bodies:
-        for fld, kind, line in CB.stores_to_fields(b, {"in_header", "in_common", "after_data"}):
-            writers.setdefault(fld, set()).add(b.npath)
+        for fld, kind, line in CB.stores_to_fields(b, set(tk_fields) - {"chars"}):
+            if "parser::tokenizer" in b.npath or "tokenizer::Tokenizer" in (b.impl_self or ""):
+                writers.setdefault(fld, set()).add(b.npath)
     allowed = {nb.npath, TK + "new_params", TK + "from_byte_iter", TK + "new"}
     extra = {f: sorted(w - allowed) for f, w in writers.items() if w - allowed}
-    R.check(not extra and writers, "R04.7", "flag-writers", "lexer flags are written only by Tokenizer::next and the constructors (readers leave them alone)", "lexer flags written elsewhere: %s" % extra)
+    R.check(not extra and writers, "R04.7", "flag-writers", "the lexer's bookkeeping fields are written only by Tokenizer::next and the constructors (readers leave them alone)", "lexer bookkeeping written elsewhere: %s" % extra)
 
     # ---- R04.8 whole-element tables (sa/rules/lexer.py: element_table) -----------------------------------------------------
     LX.check_elements(R, "R04.8", ("mnemonic", "chardata", "decimal", "string", "expression", "block", "non-decimal", "separator"), tier == "thorough")
